@@ -508,8 +508,52 @@ func harnessAPI(name string) (IntrinsicFn, bool) {
 			in.ghost["basicauth"] = TupleV{E: []Value{args[0], args[1], args[2], args[3]}}
 			return nil
 		}, true
-	case "verifDecodedRequest":
-		return func(in *Interp, _ *frame, fn *ssa.Function, args []Value, _ tokenPos) Value { return nil }, true
+	case "verifJSONBody":
+		return func(in *Interp, _ *frame, fn *ssa.Function, args []Value, _ tokenPos) Value {
+			in.ghost["body:json"] = args[0]
+			in.ghost["body:valid"] = args[1]
+			in.ghost["body:text"] = in.str.Const("{}")
+			return IfaceV{T: types.Typ[types.UnsafePointer], V: OpaqueV{Tag: "body"}}
+		}, true
+	case "verifTextBody":
+		return func(in *Interp, _ *frame, fn *ssa.Function, args []Value, _ tokenPos) Value {
+			in.ghost["body:text"] = args[0]
+			in.ghost["body:valid"] = args[1]
+			return IfaceV{T: types.Typ[types.UnsafePointer], V: OpaqueV{Tag: "body"}}
+		}, true
+	case "verifPermute":
+		return func(in *Interp, _ *frame, fn *ssa.Function, args []Value, _ tokenPos) Value {
+			in.permuteMode = int(args[0].(Sc).T.val)
+			in.permuteUsed = false
+			return nil
+		}, true
+	case "verifOp":
+		return func(in *Interp, _ *frame, fn *ssa.Function, args []Value, _ tokenPos) Value {
+			name, _ := args[0].(*Str).Concrete()
+			in.curOp = name
+			in.trackAcc = name != ""
+			return nil
+		}, true
+	case "verifLocksetsConsistent":
+		return func(in *Interp, _ *frame, fn *ssa.Function, args []Value, _ tokenPos) Value {
+			a, c, bad := in.locksetConflict()
+			if bad {
+				in.raceDesc = fmt.Sprintf("%s %s at %s (%s, locks %v) vs %s %s at %s (locks %v)", a.Op, rw(a.Write), a.Pos, a.Loc, a.Locks, c.Op, rw(c.Write), c.Pos, c.Locks)
+				in.note("lockset-conflict: " + in.raceDesc)
+			}
+			return Sc{in.b.Bool(!bad)}
+		}, true
+	case "verifConcurrently":
+		return func(in *Interp, caller *frame, fn *ssa.Function, args []Value, pos tokenPos) Value {
+			in.callValue(caller, args[0], nil, pos)
+			in.callValue(caller, args[1], nil, pos)
+			return nil
+		}, true
+	case "verifSetNow":
+		return func(in *Interp, _ *frame, fn *ssa.Function, args []Value, _ tokenPos) Value {
+			in.ghost["now"] = args[0]
+			return nil
+		}, true
 	case "verifOnExit":
 		return func(in *Interp, _ *frame, fn *ssa.Function, args []Value, _ tokenPos) Value {
 			in.ghost["env:exit"] = args[0]
@@ -747,4 +791,11 @@ func (in *Interp) modelMethod(recv IfaceV, m *types.Func) (Value, bool) {
 		}
 	}
 	return nil, false
+}
+
+func rw(w bool) string {
+	if w {
+		return "writes"
+	}
+	return "reads"
 }
